@@ -108,13 +108,18 @@ impl EventGen for ReuseElement {
         })?;
 
         let mut pos = Position::from(&reuse_element);
+        // a reuse element which doesn't place its instance leaves the target's own
+        // geometry (anchors such as cx / cy, dw / dh, end points) as written
+        let is_placed = pos.is_positioned();
         if let Some(bb) = context.get_element(&elref).and_then(|el| el.content_bbox) {
             pos.update_size(&bb.size());
         } else if let Some(sz) = instance_size {
             pos.update_size(&sz);
         }
         pos.update_shape(&instance_element.name);
-        pos.set_position_attrs(&mut instance_element);
+        if is_placed {
+            pos.set_position_attrs(&mut instance_element);
+        }
 
         let res = if let (false, Some((start, end))) = (
             instance_element.is_empty_element(),
